@@ -44,16 +44,19 @@ def rules_stub(preamble, paths):
 class Judge:
     """Compares two stub policies: bytes first, automata when the bytes differ."""
 
-    def __init__(self, ctx, ov):
+    CACHE = {}      # (texts, tunables digest) -> verdict, shared by all builds of a run
+
+    def __init__(self, ctx, ov, tdig=""):
         self.ctx = ctx
         self.ov = ov
-        self.cache = {}
+        self.tdig = tdig
+        self.cache = Judge.CACHE
         self.programs = 0
         self.disagreements_checked = 0
 
     def compare(self, a_text, b_text, which=0):
         """Returns ('equal'|'differ'|'reject-a'|'reject-b'|'inconclusive', witness/diagnostic)."""
-        key = digest(a_text, b_text)
+        key = digest(a_text, b_text, self.tdig)
         if key in self.cache:
             return self.cache[key]
         self.programs += 1
@@ -124,7 +127,7 @@ def run(ctx):
         ov = os.path.join(ctx.scratch, "ov6", b.cfg.id)
         refparser.make_overlay(ov, b.aad, b.cfg.ver, b.cfg.abi, setaside=False)
         tdig = refparser.tree_digest(os.path.join(ov, "tunables"), skip_top_files=False)
-        judge = Judge(ctx, ov)
+        judge = Judge(ctx, ov, tdig)
         exp = model.expected(REPO, b.cfg.dist, b.cfg.abi, b.cfg.ver, b.cfg.full == "full")
         jobs = []
         for rel in matrix.top_profiles(b.aad):
@@ -140,10 +143,7 @@ def run(ctx):
                 continue
             pre = preamble_of(stext)
             lit = " ".join(bh.attachments)
-            key = digest(pre, lit, tdig)
-            if key in seen_pairs:
-                continue
-            seen_pairs.add(key)
+            seen_pairs.add(digest(pre, lit, tdig))
             jobs.append((rel, pre, lit))
 
         def one(j):
@@ -201,10 +201,7 @@ def run(ctx):
                 f = scan.rule_fields(l.strip().rstrip(","))
                 if f.get("kind") == "file" and f.get("path"):
                     paths.append(f["path"])
-            key = digest("exec", preamble_of(stext), "|".join(paths), tdig)
-            if key in seen_pairs:
-                continue
-            seen_pairs.add(key)
+            seen_pairs.add(digest("exec", preamble_of(stext), "|".join(paths), tdig))
             ejobs.append((t, preamble_of(stext), paths))
 
         def eone(j):
@@ -236,6 +233,7 @@ def run(ctx):
     for key, lst in sorted(agg.items()):
         cf = sorted({c for c, _ in lst})
         ctx.violation(key, "%s  [%d configuration(s), e.g. %s]" % (lst[0][1][:500], len(cf), cf[0]), {"configs": cf})
+    ctx.extra["distinct_program_pairs"] = len(seen_pairs)
     ctx.extra["programs"] = programs
     ctx.extra["disagreements_checked"] = disagreements
     ctx.extra["configurations"] = len(cfgs)
